@@ -29,11 +29,12 @@ type Config struct {
 	MaxViolations int
 	StopOnViolation bool
 	Workers       int
+	Dedup         bool
 }
 
 func DefaultConfig() Config {
 	return Config{MaxSteps: 200000, MaxPaths: 2000000, MaxDepth: 64, MaxAlloc: 1 << 16, MaxThreads: 12,
-		MaxConcretize: 80, MapOrders: true, QueryTimeout: 60000, MaxViolations: 8, Workers: 1}
+		MaxConcretize: 80, MapOrders: true, QueryTimeout: 60000, MaxViolations: 8, Workers: 1, Dedup: true}
 }
 
 type Violation struct {
@@ -81,6 +82,7 @@ type HarnessResult struct {
 	MaxThreads   int                  `json:"max_threads"`
 	K            int                  `json:"preemption_bound"`
 	Schedules    int                  `json:"schedule_forks"`
+	Pruned       int64                `json:"states_pruned_as_duplicates"`
 }
 
 type Engine struct {
@@ -112,7 +114,7 @@ func NewEngine(prog *ssa.Program, cfg Config) (*Engine, error) {
 	}
 	return &Engine{prog: prog, ts: ts, solver: s, cfg: cfg, fnInfo: map[*ssa.Function]*FnInfo{},
 		funcsUsed: map[string]bool{}, globals: map[*ssa.Global]int{}, initialized: map[*ssa.Package]bool{},
-		subst: map[string]*ssa.Function{}, fine: cfg.Fine, sharedObjs: map[int]bool{}, violSeen: map[string]int{}, sh: &sharedState{violSeen: map[string]int{}}}, nil
+		subst: map[string]*ssa.Function{}, fine: cfg.Fine, sharedObjs: map[int]bool{}, violSeen: map[string]int{}, sh: &sharedState{violSeen: map[string]int{}, visited: &visitedSet{m: map[uint64]struct{}{}}}}, nil
 }
 
 func (e *Engine) newState() *State {
@@ -360,6 +362,10 @@ func (e *Engine) RunHarness(fn *ssa.Function, initPkgs []*ssa.Package) *HarnessR
 
 type sharedState struct {
 	mu       sync.Mutex
+	ptrIDs   map[interface{}]uint64
+	typeIDs  map[string]uint64
+	visited  *visitedSet
+	pruned   int64
 	violSeen map[string]int
 	npaths   int64
 	nviol    int64
@@ -515,6 +521,7 @@ func (e *Engine) workerLoop(q *workQueue) {
 func (e *Engine) finish(start time.Time) *HarnessResult {
 	r := e.res
 	r.Queries = e.solver.Queries
+	r.Pruned = atomic.LoadInt64(&e.sh.pruned)
 	r.Sat = e.solver.Sat
 	r.Unsat = e.solver.Unsat
 	r.Unknown = e.solver.Unknown
@@ -605,15 +612,28 @@ func (e *Engine) runPath(st *State, work []*State) []*State {
 				pos = in.Pos()
 				op = instrOpName(in)
 			}
+			dropSelf := false
 			for i := len(x.opts) - 1; i >= 0; i-- {
 				s := st
 				if i > 0 {
 					s = st.clone()
 				}
 				e.applySched(s, x.opts[i], op, pos)
+				if e.seenState(s) {
+					atomic.AddInt64(&e.sh.pruned, 1)
+					if i == 0 {
+						dropSelf = true
+					}
+					continue
+				}
 				if i > 0 {
 					work = append(work, s)
 				}
+			}
+			if dropSelf {
+				e.res.Paths++
+				e.res.Steps += st.steps
+				return work
 			}
 			continue
 		case pathEnd:
